@@ -12,7 +12,10 @@
 (* registers under the lock again (PeerOpenCommit) - or rejects (PeerOpenReject).  *)
 (* Local opens can therefore run between a peer open's allocation and its          *)
 (* registration.  A channel leaves the map when the peer's CLOSE arrives or its     *)
-(* open fails (Close).                                                               *)
+(* open fails (Close).  Peer messages that name an id out of turn (OPEN_FAILURE /    *)
+(* OPEN_CONFIRMATION for an established channel, duplicate CLOSE) are history events  *)
+(* too: they must not take a live channel out of the registry, or wrap-around hands   *)
+(* its id out again.                                                                   *)
 (*                                                                                 *)
 (* `open` is the bag of ids held by open Channel objects (sparse function id ->     *)
 (* count); the property is that no count ever exceeds 1 and every id is below N.    *)
@@ -24,7 +27,9 @@ CONSTANTS N,          \* size of the id space (2^24 in paramiko)
                       \* registration; in paramiko that needs < 2^24 open_channel calls during one
                       \* check_channel_request callback (assumption, see PendingFresh)
           Wrap,       \* TRUE: counter = (counter + 1) & mask (the code); FALSE: mutation, no wrap
-          SkipInUse   \* TRUE: ids present in the map are skipped (the code); FALSE: mutation
+          SkipInUse,  \* TRUE: ids present in the map are skipped (the code); FALSE: mutation
+          StrayFailureUnregisters  \* FALSE (the code): CHANNEL_OPEN_FAILURE only affects a local open that is
+                      \* still waiting for its answer; TRUE: mutation, it unregisters whatever id it names
 
 VARIABLES counter,    \* Transport._channel_counter
           open,       \* sparse bag: id -> number of open Channel objects with that id
@@ -96,7 +101,19 @@ Close(id) ==
   /\ Unregister(id)
   /\ UNCHANGED <<counter, pend, inwin>>
 
-Next == LocalOpen \/ PeerOpenBegin \/ PeerOpenCommit \/ PeerOpenReject \/ \E id \in DOMAIN open : Close(id)
+\* ---- peer messages that name an id they have no business with (a buggy or hostile peer).  In this model a
+\* local open is answered within LocalOpen, so every channel in `open` is established: CHANNEL_OPEN_FAILURE or
+\* CHANNEL_OPEN_CONFIRMATION for an established, a half-registered (pend) or an unknown id, and CHANNEL_CLOSE for
+\* an id that has no channel (duplicate CLOSE), must leave the registry alone.  The Channel object of an
+\* established channel stays open, so `open` never changes here.
+StrayOpenFailure(id) ==
+  /\ map' = IF StrayFailureUnregisters THEN map \ {id} ELSE map
+  /\ UNCHANGED <<counter, open, pend, inwin>>
+StrayOpenSuccess(id) == UNCHANGED vars
+DuplicateClose(id) == id \notin DOMAIN open /\ UNCHANGED vars
+Stray == \E id \in Ids : StrayOpenFailure(id) \/ StrayOpenSuccess(id) \/ DuplicateClose(id)
+
+Next == LocalOpen \/ PeerOpenBegin \/ PeerOpenCommit \/ PeerOpenReject \/ (\E id \in DOMAIN open : Close(id)) \/ Stray
 Spec == Init /\ [][Next]_vars
 
 (* ------------------------------------------------------------------ the property *)
